@@ -22,6 +22,22 @@ BOUNDARY = ["", " ", "\n", "\t", "a", "ab", " a", "a ", "a\n", "\na", "a\tb", "\
             "\u017f", "\u0130", "\u212a", "i\u017f", "\u017ft", "\u0131"]
 
 
+def _locless(pp, read):
+    def act(s, l, t):
+        raise pp.ParseException("rejected by the action")
+    e = pp.Word("ab").set_parse_action(act)
+    if read:
+        quiet = lambda *a: None
+        e.set_debug_actions(quiet, quiet, lambda s, l, el, err, cache=False: str(err))
+    return e
+
+
+def _fwd_of(pp, e):
+    f = pp.Forward()
+    f <<= e
+    return f
+
+
 def zoo():
     """(name, constructor) for every exported element class / helper; built lazily so that import errors are local"""
     import pyparsing as pp
@@ -54,6 +70,13 @@ def zoo():
         ("OneOrMore.stop", lambda: pp.OneOrMore(W("ab"), stop_on="b")), ("NotAny", lambda: ~L("a") + W("ab")), ("FollowedBy", lambda: pp.FollowedBy("a") + W("ab")),
         ("PrecededBy", lambda: W("ab") + pp.PrecededBy("b") + ","), ("PrecededBy.win", lambda: W("ab") + pp.PrecededBy(W("ab"), retreat=2) + ","),
         ("Group", lambda: pp.Group(W("ab") + ",")), ("Suppress", lambda: pp.Suppress("a") + "b"), ("Combine", lambda: pp.Combine(W("a") + W("b"))),
+        # a parse action that raises a ParseException WITHOUT a location (the one-argument form), below wrappers that fill the
+        # location in afterwards, with a debug fail action that reads the diagnostics before they do (F-06e)
+        ("locless.Group", lambda: pp.Opt(W("ab") + pp.LineEnd()) + pp.Group(_locless(pp, False))),
+        ("locless.Group.read", lambda: pp.Opt(W("ab") + pp.LineEnd()) + pp.Group(_locless(pp, True))),
+        ("locless.Forward.read", lambda: pp.Opt(W("ab") + pp.LineEnd()) + _fwd_of(pp, _locless(pp, True))),
+        ("locless.Opt.read", lambda: pp.Opt(W("ab") + pp.LineEnd()) + pp.Opt(pp.Suppress(_locless(pp, True))) + W("ab")),
+        ("locless.bare.read", lambda: pp.Opt(W("ab") + pp.LineEnd()) + _locless(pp, True)),
         ("Dict", lambda: pp.Dict(pp.OneOrMore(pp.Group(W("ab") + W("ab"))))),
         # token converters run postParse OUTSIDE the IndexError net of parseImpl: contents that produce empty groups / no tokens / bare tokens
         ("Dict.emptygroup", lambda: pp.Dict(pp.Group(pp.Opt(W("ab"))) + pp.Group(W("ab")[...]))),
@@ -147,14 +170,15 @@ def defect_key(exc, bad, expr=None):
                   if "/pyparsing/" in f.filename and not f.filename.endswith("results.py")]
         site = "%s:%s" % (frames[-1].name, (frames[-1].line or "").strip()) if frames else "?"
         return "internal:%s@%s" % (type(exc).__name__, site.replace(" ", "_"))
-    if bad.startswith("loc "):
+    if bad.startswith("loc ") and " outside " in bad:
         try:
             if expr is not None and any(isinstance(x, pp.GoToColumn) for x in expr.visit_all()):
                 return "loc-out-of-range:after-GoToColumn"
         except Exception:
             pass
         return "loc-out-of-range:%s" % type(exc.parser_element).__name__
-    return "diagnostic:%s" % bad.split(":")[0].replace(" ", "_")[:60]
+    import re
+    return "diagnostic:%s" % re.sub(r"[0-9]+", "N", bad.split(":")[0]).replace(" ", "_")[:60]
 
 
 def run_entries(e, inp):
